@@ -54,6 +54,31 @@ impl Monitor for C07 {
                 }
             }
         }
+        // every pair of operators in a three-operand chain, with and without a prefix minus on the
+        // second / third operand (precedence and sign handling feeding the exact oracle)
+        {
+            let vals = ["7", "2", "3", "0.5", "1.25", "10"];
+            let ops3 = ["+", "-", "*", "/", "%"];
+            for (ia, a) in vals.iter().enumerate() {
+                for (ib, b) in vals.iter().enumerate() {
+                    for (ic, c) in vals.iter().enumerate() {
+                        if (ia + ib + ic) % 3 != 0 {
+                            continue;
+                        }
+                        for o1 in ops3 {
+                            for o2 in ops3 {
+                                for (nb, nc) in [("", ""), ("-", ""), ("", "-"), ("-", "-"), ("+", "-")] {
+                                    if ctx.mine() {
+                                        let s = format!("{}{}{}{}{}{}{}", a, o1, nb, b, o2, nc, c);
+                                        ctx.check(&Case::new(ev, "chain", &s, zero), &|c, st| self.judge(c, st));
+                                    }
+                                }
+                            }
+                        }
+                    }
+                }
+            }
+        }
         // fixed probe of the recorded finding, so that every run reports whether it is still there
         if ctx.mine() {
             let a = DecV { neg: true, mant: 39614081257132168796771975167, scale: 0 };
